@@ -5,5 +5,5 @@ CONSTANTS
   Pids = {7}
 INIT QInit
 NEXT QNext
-INVARIANTS QWellFormed QNextAboveAssigned QPositionsNeverReused QFrame QCrashFrame QNoTrace QObservers QTruncate
+INVARIANTS QWellFormed QNextAboveAssigned QPositionsNeverReused QFrame QProjection QCrashFrame QNoTrace QObservers QTruncate
 CHECK_DEADLOCK FALSE
